@@ -21,7 +21,12 @@ Curated == {
   D(<<N(1), N(2), N(3), Wy(1), Wy(2), R(1)>>,
     << <<Wy(1), <<N(1), N(2)>>>>, <<Wy(2), <<N(2), N(3)>>>>, <<R(1), <<Wy(2)>>>> >>, {N(1)}, {N(3)}),
   D(<<N(1), N(2)>>, NoMem, {N(2)}, {N(1)}),
-  D(<<>>, NoMem, {}, {})
+  D(<<>>, NoMem, {}, {}),
+  (* a node that is missing from the file (clipped extract) is referenced by a kept way and by a way nothing else selects:
+     being *needed* is not being *kept* *)
+  D(<<N(1), N(2), Wy(1), Wy(2)>>, << <<Wy(1), <<N(1), N(9)>>>>, <<Wy(2), <<N(9), N(2)>>>> >>, {N(1)}, {Wy(1)}),
+  D(<<N(1), N(2), Wy(2), Wy(1)>>, << <<Wy(1), <<N(1), N(9)>>>>, <<Wy(2), <<N(2), N(9)>>>> >>, {N(1)}, {Wy(1)}),
+  D(<<N(1), Wy(1), R(1), R(2)>>, << <<Wy(1), <<N(1)>>>>, <<R(1), <<Wy(1), Wy(9)>>>>, <<R(2), <<Wy(9)>>>> >>, {N(1)}, {R(1)})
 }
 
 (* enumerated family: nodes n1 n2, way w1 with 1-2 node members, relation r1 with 1-2 members out of
